@@ -420,6 +420,9 @@ Definition info (p : Z) : option pinfo := zlookup p amp_particles.
             name, spins, lines, fx, n = a
             if name != b[0] or spins != b[1] or fx != b[3] or n != b[4] or [l[:5] for l in lines] != [l[:5] for l in b[2]]:
                 return "amplitude " + str(name)
+            # the radius of a lineshape (5.0 for a resonance with a charm quark or anti-quark, else 1.5; RBW carries none)
+            if any(la[5] is not None and la[5] != lb[5] for la, lb in zip(lines, b[2])):
+                return "lineshape radius of amplitude " + str(name)
         return None
     diffs, hits = [], []
     for i, (c, iv, mv) in enumerate(zip(cases, impl, model)):
@@ -460,7 +463,7 @@ Definition info (p : Z) : option pinfo := zlookup p amp_particles.
         a, b = iv["cpp"], iv["py"]
         same = (a["event"] == b["event"] and [x[0] for x in a["massconsts"]] == [x[0] for x in b["massconsts"]]
                 and [x[0] for x in a["resvars"]] == [x[0] for x in b["resvars"]] and a["pars"] == b["pars"]
-                and [[x[0], x[1], [l[:5] for l in x[2]], x[3], x[4]] for x in a["amps"]] == [[x[0], x[1], [l[:5] for l in x[2]], x[3], x[4]] for x in b["amps"]])
+                and [[x[0], x[1], [l[:6] for l in x[2]], x[3], x[4]] for x in a["amps"]] == [[x[0], x[1], [l[:6] for l in x[2]], x[3], x[4]] for x in b["amps"]])
         if not same:
             hits.append((c["path"], "the two outputs do not describe the same model"))
         if a["arrays"] != b["arrays"]:
